@@ -4,6 +4,7 @@ import (
 	"encoding/hex"
 	"encoding/json"
 	"fmt"
+	"github.com/ethereum/go-ethereum/common"
 	"math/big"
 	"sort"
 	"strings"
@@ -36,7 +37,7 @@ type C10Block struct {
 	Noise  uint64  `json:"noise"`
 }
 
-var c10Kinds = []string{"order", "junk", "reads", "revert", "revert-account", "addvsset", "noop-state", "noop-account", "reopen", "txend", "pipeline"}
+var c10Kinds = []string{"order", "junk", "reads", "revert", "revert-account", "addvsset", "noop-state", "noop-account", "reopen", "txend", "pipeline", "selfdestruct"}
 
 func genC10(r *sim.Rand, tier string) *sim.Plan {
 	cfg := C10Config{CacheB: []int{0, 1, 2, 3, 8}[r.Intn(5)]}
@@ -82,6 +83,9 @@ func genC10(r *sim.Rand, tier string) *sim.Plan {
 			case 2:
 				s.Op = "bal"
 				s.N = uint64(r.Intn(1000) + 1)
+				if r.Chance(0.3) {
+					s.N = 0 // emptied: realisation B may do it the way the EVM's SELFDESTRUCT does (kind "selfdestruct")
+				}
 			case 3:
 				s.Op = "nonce"
 				s.N = uint64(r.Intn(1000) + 1)
@@ -119,6 +123,11 @@ func hasKind(ks []string, k string) bool {
 
 func applyWrite(n *node, s LStep, useAdd bool) {
 	ad := uniAddrs[s.A%len(uniAddrs)]
+	if s.Op == "bal" && s.N == 0 && useAdd {
+		// (useAdd on a balance write = "the other way of writing the same thing": the self-destruct entry point)
+		n.sl.SuisideEVM(common.BytesToAddress(ad.Bytes()))
+		return
+	}
 	switch s.Op {
 	case "set":
 		if useAdd {
@@ -238,6 +247,11 @@ func realiseNoisy(n *node, m *model, blk C10Block, kinds []string, res *sim.Resu
 		useAdd := hasKind(kinds, "addvsset") && w.Op == "set" && doAdd
 		if useAdd {
 			res.Count("var_addvsset")
+		}
+		// (SELFDESTRUCT runs in a contract's own account, which exists: only accounts holding a balance or a nonce)
+		if wa := m.work[w.A%len(uniAddrs)]; hasKind(kinds, "selfdestruct") && w.Op == "bal" && w.N == 0 && doAdd && (wa.bal.Sign() > 0 || wa.nonce > 0) {
+			useAdd = true
+			res.Count("var_selfdestruct")
 		}
 		applyWrite(n, w, useAdd)
 		applyWriteModel(m, w)
